@@ -375,6 +375,9 @@ var anchors = []time.Time{
 	time.Date(2024, 1, 14, 0, 0, 0, 0, time.UTC), time.Date(2024, 3, 7, 0, 0, 0, 0, time.UTC), time.Date(2024, 3, 28, 0, 0, 0, 0, time.UTC),
 	time.Date(2024, 4, 4, 0, 0, 0, 0, time.UTC), time.Date(2024, 6, 12, 0, 0, 0, 0, time.UTC), time.Date(2024, 10, 3, 0, 0, 0, 0, time.UTC),
 	time.Date(2024, 10, 24, 0, 0, 0, 0, time.UTC), time.Date(2024, 10, 31, 0, 0, 0, 0, time.UTC), time.Date(2025, 12, 28, 0, 0, 0, 0, time.UTC),
+	// instants far from today: around and before the Unix epoch, past 2^31 seconds, a century year
+	time.Date(1969, 12, 27, 0, 0, 0, 0, time.UTC), time.Date(1965, 6, 10, 0, 0, 0, 0, time.UTC), time.Date(1901, 12, 10, 0, 0, 0, 0, time.UTC),
+	time.Date(2038, 1, 15, 0, 0, 0, 0, time.UTC), time.Date(2100, 2, 24, 0, 0, 0, 0, time.UTC),
 }
 
 func genInstant(t *rapid.T, cfg schedCfg) time.Time {
